@@ -62,6 +62,70 @@ def check_case(fb, rec, c, rep, stats, held=None):
             return
 
 
+def lagrange_weights_exact(x, x0):
+    """spec/Fornberg.tla's DEFINITION (k-th derivative at x0 of the Lagrange basis polynomials) evaluated in exact rational
+    arithmetic on the floating-point inputs - for node sets beyond what TLC's 32-bit rationals reach (sizes 6..14)"""
+    from fractions import Fraction as Fr
+    import math
+    m = len(x)
+    X, c0 = [Fr(float(v)) for v in x], Fr(float(x0))
+    W = [[Fr(0)] * m for _ in range(m)]
+    for j in range(m):
+        poly, den = [Fr(1)], Fr(1)            # in powers of t = x - x0
+        for i in range(m):
+            if i == j:
+                continue
+            a = c0 - X[i]
+            new = [Fr(0)] * (len(poly) + 1)
+            for k, ck in enumerate(poly):
+                new[k] += ck * a
+                new[k + 1] += ck
+            poly, den = new, den * (X[j] - X[i])
+        for k in range(m):
+            W[k][j] = poly[k] * math.factorial(k) / den
+    return np.array([[float(v) for v in row] for row in W])
+
+
+def large_sets(fb, tier, seed, rep, stats):
+    rnd = random.Random(seed + 11)
+    for trial in range(60 if tier == 'quick' else 600):
+        m = rnd.randint(6, 14)
+        kind = rnd.choice(['uniform', 'random', 'clustered', 'permuted', 'one-sided'])
+        if kind == 'uniform':
+            x = np.arange(m) * 0.5 - 1.0
+        elif kind == 'random':
+            x = np.sort(np.array([rnd.uniform(-2, 2) for _ in range(m)]))
+        elif kind == 'clustered':
+            x = np.cos(np.pi * (np.arange(m) + 0.5) / m)
+        elif kind == 'permuted':
+            x = np.array(rnd.sample(list(np.arange(m) * 0.25), m))
+        else:
+            x = np.arange(m) * 0.125
+        if np.min(np.abs(np.diff(np.sort(x)))) < 1e-3:
+            continue
+        x0 = rnd.choice([x[m // 2], x[0] - 0.3, 0.5 * (x[1] + x[2]), x[-1] + 1.0, 0.1])
+        W = lagrange_weights_exact(x, x0)
+        name = '%s nodes, size %d, x0=%r' % (kind, m, float(x0))
+        for n in sorted({m - 1, rnd.randint(0, m - 1), rnd.randint(0, m - 1)}):
+            try:
+                got = np.asarray(fb.fd_weights_all(x, x0, n), dtype=float)
+                row = np.asarray(fb.fd_weights(x, x0, n), dtype=float)
+            except Exception as ex:
+                rep.violation('raises:large', dict(case=name, n=n), '%s n=%d raised %r' % (name, n, ex))
+                break
+            stats['calls'] += 1
+            stats['large_sets'] = stats.get('large_sets', 0) + 1
+            if got.shape != (n + 1, m) or not np.array_equal(row, got[n]):
+                rep.violation('shape:large', dict(case=name, n=n, got=list(got.shape)), '%s n=%d: shape %s / fd_weights is not row n' % (name, n, got.shape))
+                break
+            bad = [k for k in range(n + 1) if not np.abs(got[k] - W[k]).max() <= 1e4 * EPS * np.abs(W[k]).sum() + 1e-300]
+            if bad:
+                k = bad[0]
+                rep.violation('weights:large:row%d' % k, dict(case=name, n=n, row=k, nodes=x.tolist(), got=got[k].tolist(), want=W[k].tolist()),
+                              '%s: fd_weights_all(n=%d)[%d] = %s, exact Lagrange-derivative weights %s' % (name, n, k, got[k].tolist(), W[k].tolist()))
+                break
+
+
 def run(tier, rep):
     seed = vlib.seed_from_env()
     from numdifftools import fornberg as fb
@@ -86,12 +150,13 @@ def run(tier, rep):
     for rec in again[:len(again) // (4 if tier == 'quick' else 1)]:
         check_case(fb, rec, 1.0, rep, stats)
         check_case(fb, rec, 2.0 ** -10, rep, stats)
+    large_sets(fb, tier, seed, rep, stats)
     states, trans, per = vlib.merge_tlc(results)
     cov = dict(states=states, transitions=trans, traces_validated_against_impl=len(recs), exhaustive=True,
                samples=[recs[7], recs[-1]], evaluations=stats['calls'], skipped_overflow=skipped,
                distinct_nontrivial=len({(repr(r['x']), repr(r['x0'])) for r in recs if len(r['x']) > 2}),
                rule='every ordered tuple of distinct nodes from a 9-value rational set (sizes 2..4, thorough: 5) x expansion points inside/outside/on a node; all n < len(x); non-trivial = more than two nodes',
-               max_error_over_tolerance=stats['max_ratio'], scales=scales + [2.0 ** -10], held_results=len(held), tlc=per)
-    assum = ['tolerance 64*eps*m*sum|w| per row', 'node sets larger than 5 and non-dyadic spacings only through the scaling lemma',
+               max_error_over_tolerance=stats['max_ratio'], scales=scales + [2.0 ** -10], held_results=len(held), large_node_sets=stats.get('large_sets', 0), tlc=per)
+    assum = ['tolerance 64*eps*m*sum|w| per row', 'node sets of size 6..14 (uniform, random, clustered, permuted, one-sided): the specification\'s Lagrange definition evaluated in Fractions on the float inputs, tolerance 1e4*eps*sum|w| (worst observed 45)',
              'expansion points from a 7-value (3-value for the larger sizes) grid']
     return cov, assum
